@@ -17,6 +17,7 @@ import (
 // NoiseResult: reports received by a viewer of the stats topic that sends messages which are not
 // update commands a few times a second.
 type NoiseResult struct {
+	Kind       string  `json:"kind"`
 	Sent       int     `json:"sent"`
 	Reports    int     `json:"reports"`
 	ArrivalsMs []int64 `json:"arrivals_ms"`
@@ -26,14 +27,51 @@ type NoiseResult struct {
 }
 
 const (
-	noiseFor   = 9 * time.Second
+	noiseFor   = 8 * time.Second
 	noiseEvery = 300 * time.Millisecond
 )
 
-func noiseChild() {
+// noiseKinds: what a connection with the write scope may put on the stats topic besides update commands.
+var noiseKinds = []string{"json-other-command", "json-not-an-object", "text", "binary", "empty", "huge", "mixed"}
+
+// noiseMessage is message k of the given kind: (websocket message type, payload).
+func noiseMessage(kind string, k int) (int, []byte) {
+	switch kind {
+	case "json-other-command":
+		return websocket.TextMessage, []byte([]string{`{"cmd":"status"}`, `{"cmd":""}`, `{}`, `{"command":"update"}`, `{"cmd":"UPDATE"}`, `{"cmd":null}`}[k%6])
+	case "json-not-an-object":
+		return websocket.TextMessage, []byte([]string{`[]`, `5`, `"update"`, `null`, `true`, `[{"cmd":"update"}]`, `{"cmd":5}`, `{"cmd":["update"]}`}[k%8])
+	case "text":
+		return websocket.TextMessage, []byte([]string{"ping", "keep-alive", "update", "{", "{\"cmd\":\"update\"", "\u00e9\u2028", "cmd=update"}[k%7])
+	case "binary":
+		return websocket.BinaryMessage, [][]byte{{0}, {0xff, 0xfe, 0x00, 0x01}, {0x7b, 0x00, 0x7d}, {0x89, 0x00}, []byte("\x00\x01\x02update")}[k%5]
+	case "empty":
+		if k%2 == 0 {
+			return websocket.TextMessage, []byte{}
+		}
+		return websocket.BinaryMessage, []byte{}
+	case "huge":
+		b := make([]byte, 200000)
+		for i := range b {
+			b[i] = byte('a' + i%26)
+		}
+		if k%2 == 0 {
+			copy(b, `{"cmd":"status","pad":"`)
+			copy(b[len(b)-2:], `"}`)
+		}
+		return websocket.TextMessage, b
+	}
+	// mixed: all of the above and, every fifth message, a genuine update command
+	if k%5 == 4 {
+		return websocket.TextMessage, []byte(`{"cmd":"update"}`)
+	}
+	return noiseMessage(noiseKinds[k%6], k/6)
+}
+
+func noiseChild(kind string) {
 	log.SetOutput(ioutil.Discard)
 	log.SetLevel(log.PanicLevel)
-	out := NoiseResult{}
+	out := NoiseResult{Kind: kind}
 	defer func() {
 		b, _ := json.Marshal(out)
 		fmt.Println("NOISERESULT " + string(b))
@@ -72,9 +110,10 @@ func noiseChild() {
 			}
 		}
 	}()
-	for time.Since(start) < noiseFor {
+	for k := 0; time.Since(start) < noiseFor; k++ {
 		vc.SetWriteDeadline(time.Now().Add(2 * time.Second))
-		if vc.WriteMessage(websocket.TextMessage, []byte(`{"cmd":"status"}`)) == nil {
+		mt, payload := noiseMessage(kind, k)
+		if vc.WriteMessage(mt, payload) == nil {
 			out.Sent++
 		}
 		time.Sleep(noiseEvery)
@@ -101,43 +140,60 @@ func noiseChild() {
 	vc.Close()
 }
 
-// runNoise runs the scenario in a child with a watchdog.
-func runNoise(res *lib.Result) *Case {
-	cmd := exec.Command(os.Args[0], "noisechild")
-	cmd.Env = os.Environ()
-	done := make(chan struct{})
-	var outb []byte
-	go func() { outb, _ = cmd.CombinedOutput(); close(done) }()
-	select {
-	case <-done:
-	case <-time.After(40 * time.Second):
-		if cmd.Process != nil {
-			cmd.Process.Kill()
-		}
-		<-done
+// runNoise runs one child per kind of noise, side by side, each with a watchdog; every result goes to
+// the model as a CQuiet case.
+func runNoise(res *lib.Result) []Case {
+	type one struct {
+		r     NoiseResult
+		found bool
 	}
-	var r NoiseResult
-	found := false
-	for _, line := range splitLines(outb) {
-		if len(line) > 12 && string(line[:12]) == "NOISERESULT " {
-			if json.Unmarshal(line[12:], &r) == nil {
-				found = true
+	results := make([]one, len(noiseKinds))
+	var wg sync.WaitGroup
+	for i, kind := range noiseKinds {
+		wg.Add(1)
+		go func(i int, kind string) {
+			defer wg.Done()
+			cmd := exec.Command(os.Args[0], "noisechild", kind)
+			cmd.Env = os.Environ()
+			done := make(chan struct{})
+			var outb []byte
+			go func() { outb, _ = cmd.CombinedOutput(); close(done) }()
+			select {
+			case <-done:
+			case <-time.After(40 * time.Second):
+				if cmd.Process != nil {
+					cmd.Process.Kill()
+				}
+				<-done
 			}
+			for _, line := range splitLines(outb) {
+				if len(line) > 12 && string(line[:12]) == "NOISERESULT " {
+					if json.Unmarshal(line[12:], &results[i].r) == nil {
+						results[i].found = true
+					}
+				}
+			}
+		}(i, kind)
+	}
+	wg.Wait()
+	var cases []Case
+	for i, kind := range noiseKinds {
+		r, found := results[i].r, results[i].found
+		if !found || r.Note != "" || r.Sent < 10 {
+			res.Notes = append(res.Notes, fmt.Sprintf("noise scenario %s did not run (found=%v note=%q): not evaluated", kind, found, r.Note))
+			res.Count("noise:not-evaluated")
+			continue
+		}
+		res.Count("noise:evaluated")
+		res.CountN("noise:messages", r.Sent)
+		res.CountN("noise:reports-meanwhile", r.Reports)
+		cases = append(cases, Case{Kind: "quiet", D: r.MaxGapMs, Note: kind})
+		if r.MaxGapMs > settle.Milliseconds() {
+			res.Violate(lib.Violation{Clause: "stats-topic-silent", Case: -1, Key: "F18:reports-starved-by-messages-on-stats-topic",
+				Replay: Case{Kind: "noise", Note: kind},
+				Detail: fmt.Sprintf("while a connection sent %d messages of kind %q on topic stats (one every %v; none or few of them update commands), the stats topic was silent for %d ms (%d reports in %v; two reporting intervals are %d ms); %d reports in the two intervals after it stopped",
+					r.Sent, kind, noiseEvery, r.MaxGapMs, r.Reports, noiseFor, (2 * reportInterval).Milliseconds(), r.QuietAfter)})
 		}
 	}
-	if !found || r.Note != "" || r.Sent < 10 {
-		res.Notes = append(res.Notes, fmt.Sprintf("noise scenario did not run (found=%v note=%q): not evaluated", found, r.Note))
-		res.Count("noise:not-evaluated")
-		return nil
-	}
-	res.Count("noise:evaluated")
-	res.CountN("noise:messages", r.Sent)
-	res.CountN("noise:reports-meanwhile", r.Reports)
-	if r.MaxGapMs > settle.Milliseconds() {
-		res.Violate(lib.Violation{Clause: "stats-topic-silent", Case: -1, Key: "F18:reports-starved-by-messages-on-stats-topic",
-			Replay: Case{Kind: "noise", Note: fmt.Sprintf("a viewer with the write scope sends a message that is not an update command every %v for %v", noiseEvery, noiseFor)},
-			Detail: fmt.Sprintf("while a connection sent %d messages that are not {\"cmd\":\"update\"} on topic stats (one every %v), the stats topic was silent for %d ms (%d reports in %v; two reporting intervals are %d ms); %d reports in the two intervals after it stopped",
-				r.Sent, noiseEvery, r.MaxGapMs, r.Reports, noiseFor, (2 * reportInterval).Milliseconds(), r.QuietAfter)})
-	}
-	return nil
+	return cases
 }
